@@ -172,14 +172,15 @@ def _histories(ctx, exe, violation):
     def cmdline(c):
         if c["m"] in ("getEleShortClosestInMass", "isMassAssociatedWithElement"):
             base = 0.0 if c["n"] == "zero" else (0.5 * (mass["C"] + mass["N"]) if c["n"] == "mid" else mass[c["n"]])
-            return "hcall %s %r %r" % (c["m"], base + c["k"] * TOL_EL / 2.0, TOL_EL)
+            tol = float(c.get("t", TOL_EL))
+            return "hcall %s %r %r" % (c["m"], base + c["k"] * tol / 2.0, tol)
         return "hcall %s %s" % (c["m"], c["n"])
 
     items = [(i, ["hnew"] + [cmdline(c) for c in hh]) for i, hh in enumerate(hists)]
     results, crashes = vlib.run_items(exe, items)
     for i, hh in enumerate(hists):
         ctx.traces += 1
-        if len({(c["m"], c["n"], c["k"]) for c in hh}) > 1:
+        if len({(c["m"], c["n"], c["k"], c.get("t")) for c in hh}) > 1:
             ctx.nontriv(("history", json.dumps(hh, sort_keys=True)))
         if i in crashes:
             violation("history:Elements:crash", "driver died replaying %s: %s" % (hh, crashes[i]), {"history": hh})
@@ -696,8 +697,16 @@ def run(ctx):
             "; also disagrees with " + others if others else ""),
             {"place": k, "value": v, "reference": expect, "rel": rel, "obligation": r})
     for a, b, dev, r in bad_same:
-        if a in bad_ref or b in bad_ref:
+        recip = all(t["x"] == 1 for t in r["terms"]) and all(t["p"]["t"] in ("lammps", "io") for t in r["terms"])
+        if recip:
+            # writer factor x reader factor = 1 is an obligation of its own: it holds on the unchanged tree even where
+            # both absolute factors are known findings (10 x 0.1), so a change of ONE side must not hide behind them
+            violation("roundtrip:%s~%s" % tuple(sorted((a, b))), "reader and writer factors are not reciprocal: %s=%r, "
+                      "%s=%r, product = 1%+.2e" % (a, val[a], b, val[b], val[a] * val[b] - 1.0),
+                      {"obligation": r, "values": {a: val[a], b: val[b]}})
             continue
+        if (a in bad_ref) != (b in bad_ref):
+            continue        # explained by the one place that fails its reference (reported there)
         violation("agree:%s~%s" % tuple(sorted((a, b))), "same quantity in two places differs by %.2e: %s=%r %s=%r" % (
             dev, a, val[a], b, val[b]), {"obligation": r, "values": {a: val[a], b: val[b]}})
     for dev, r in bad_compose:
